@@ -7,7 +7,7 @@ correspondence (same op lines through the real code and through the model, outpu
 (4) on any broken obligation or disagreement search for / report a concrete failing input,
 (5) write evidence/<id>.json.  Exit 0 = held on everything explored, 1 = VIOLATION, 2 = infrastructure.
 """
-import sys, os, json, time, subprocess, random, hashlib, re, importlib, tempfile, shutil
+import sys, os, json, time, subprocess, random, hashlib, re, importlib, tempfile, shutil, itertools
 
 ROOT = os.path.dirname(os.path.abspath(__file__))
 LEAN = os.path.join(ROOT, 'lean')
@@ -170,6 +170,34 @@ def model_bin():
     return os.path.join(LEAN, '.lake', 'build', 'bin', 'wpmodel')
 
 
+class Ctx:
+    """what a generator module sees: run op lines on the real code, on the model, or on both (compared)"""
+    def __init__(self, tier, rng, hbin, model_ok, limit=None):
+        self.tier, self.rng, self.hbin, self.model_ok = tier, rng, hbin, model_ok
+        self.records = []      # (op, go result, model result) of compared ops
+        self.infra = []
+        self.limit = limit
+        self.goenv = dict(os.environ, VERIF_OP_TIMEOUT_MS=os.environ.get('VERIF_OP_TIMEOUT_MS', '4000'), GOMEMLIMIT='4GiB')
+
+    def go(self, ops):
+        if not self.hbin:
+            return [None] * len(ops)
+        r = run_lines(self.hbin, [f'{k} {op}' for k, op in enumerate(ops)], 16, env=self.goenv)
+        return [r.get(str(k)) for k in range(len(ops))]
+
+    def model(self, ops):
+        if not self.model_ok:
+            return [None] * len(ops)
+        r = run_lines(model_bin(), [f'{k} {op}' for k, op in enumerate(ops)], 16)
+        return [r.get(str(k)) for k in range(len(ops))]
+
+    def both(self, ops):
+        ops = list(ops)
+        g, m = self.go(ops), self.model(ops)
+        self.records.extend(zip(ops, g, m))
+        return g, m
+
+
 # ---------------------------------------------------------------- known findings
 
 def load_known():
@@ -265,7 +293,8 @@ def main():
 
     # 3. correspondence
     rng = random.Random(seed)
-    ops = list(gen.generate(tier, rng))
+    model_ok = os.path.exists(model_bin())
+    ctx = Ctx(tier, rng, hbin, model_ok)
     corpus_dir = os.path.join(ROOT, 'corpus', pid)
     corpus = []
     if os.path.isdir(corpus_dir):
@@ -274,17 +303,18 @@ def main():
                 l = l.strip()
                 if l and not l.startswith('#'):
                     corpus.append(l)
-    ops = corpus + ops
-    lines = [f'{k} {op}' for k, op in enumerate(ops)]
-    model_ok = os.path.exists(model_bin())
-    mres = run_lines(model_bin(), lines, 16) if model_ok else {}
-    gres = run_lines(hbin, lines, 16, env=dict(os.environ, VERIF_OP_TIMEOUT_MS=os.environ.get('VERIF_OP_TIMEOUT_MS', '4000'), GOMEMLIMIT='4GiB')) if hbin else {}
-    infra = []
+    if corpus:
+        ctx.both(corpus)
+    if hasattr(gen, 'run'):
+        gen.run(ctx)
+    else:
+        ctx.both(list(gen.generate(tier, rng)))
+    ops = [r[0] for r in ctx.records]
+    infra = list(ctx.infra)
     disagreements = []
     classes = {}
     distinct = set()
-    for k, op in enumerate(ops):
-        m = mres.get(str(k)); g = gres.get(str(k))
+    for op, g, m in ctx.records:
         if model_ok and (m is None or m == 'bad-op'):
             infra.append(f'model driver gave {m!r} for op {op[:120]}')
             continue
@@ -335,13 +365,14 @@ def main():
             # directed search: thorough generators with another seed
             found = False
             if hbin and model_ok:
-                rng2 = random.Random(seed + 1)
-                ops2 = list(gen.generate('thorough', rng2))[:200000]
-                lines2 = [f'{k} {op}' for k, op in enumerate(ops2)]
-                m2 = run_lines(model_bin(), lines2, 16); g2 = run_lines(hbin, lines2, 16)
-                for k, op in enumerate(ops2):
-                    m = m2.get(str(k)); g = g2.get(str(k), 'crash')
+                ctx2 = Ctx('thorough', random.Random(seed + 1), hbin, model_ok, limit=200000)
+                if hasattr(gen, 'run'):
+                    gen.run(ctx2)
+                else:
+                    ctx2.both(list(itertools.islice(gen.generate('thorough', ctx2.rng), 200000)))
+                for op, g, m in ctx2.records:
                     if m is None or m == 'bad-op' or g == 'bad-op': continue
+                    if g is None: g = 'crash'
                     if not gen.agree(op, g, m) and not any(kp == pid and kop == op for kp, kop, _ in known):
                         p = write_replay(pid, dict(property=pid, kind='correspondence-disagreement', ops=[op], go=g, model=m, seed=seed + 1,
                                                    broken=what, theorem=gen.THEOREMS, explanation=gen.explain(op, g, m)))
